@@ -339,7 +339,9 @@ def c08(ctx):
                 "scheduler must terminate; the first k that completes is the retry and must return the model's result - so k covers exactly the allocations the "
                 "operation makes. Every operation is injected on trees of <= 48 entries, structural operations always, others with probability 48/n. Over-long (2^32 "
                 "byte, MAP_NORESERVE) keys and values must raise std::length_error without a trace. QSBR: qsbr_resume, qsbr_thread construction, "
-                "on_next_epoch_deallocate (second thread parked so that the request queues). An interposed pthread_mutex monitor checks after every injected call that the "
+                "on_next_epoch_deallocate (second thread parked so that the request queues; and, with a second thread that quiesces on request, after random preludes of "
+                "requests and quiescent states of both threads, so that the failing call finds requests pending in either interval and its own view of the epoch current "
+                "or one behind: state word, request-list getters, QSBR statistics getters and the set of live blocks must be unchanged). An interposed pthread_mutex monitor checks after every injected call that the "
                 "calling thread holds no std::mutex (mutex_db, QSBR statistics). evaluations = (operation, k) injections; distinct+non-trivial = "
                 "(operation kind, structural case, class, key kind, k) is new and the fault really surfaced as an exception")
     ctx.assumptions = ["one fault per operation; the injector keeps failing every later allocation until disarmed (at least as hostile during unwinding)",
@@ -348,7 +350,9 @@ def c08(ctx):
     tags = ["%s.%s" % (c, k) for c in ("db", "mutex_db", "olc_db") for k in ("u64", "key_view")]
     ctx.floors = [("surfaced.%s.%s" % (c, tag), 1) for c in OOM_CASES for tag in tags]
     ctx.floors += [("injections.qsbr_resume", 10), ("injections.qsbr_thread", 10), ("injections.on_next_epoch_deallocate", 10), ("olc_lock_sweeps", 1000), ("mutex_balance_checks", 10000),
-                   ("length_error_key_cases", 5), ("length_error_value_cases", 5)]
+                   ("length_error_key_cases", 5), ("length_error_value_cases", 5),
+                   ("dealloc_failures.stale_epoch_view.requests_pending", 20), ("dealloc_failures.stale_epoch_view.nothing_pending", 20),
+                   ("dealloc_failures.current_epoch_view.requests_pending", 20), ("dealloc_failures.current_epoch_view.nothing_pending", 20)]
 
 
 # ------------------------------------------------------------- E6 cfgdiff
